@@ -18,7 +18,6 @@ use ast_grep_config::{from_str, from_yaml_string, DeserializeEnv, GlobalRules, R
 use ast_grep_core::replacer::Replacer;
 use ast_grep_core::{AstGrep, Language};
 use ast_grep_language::SupportLang;
-use rayon::prelude::*;
 use serde_json::{json, Value};
 use std::collections::{BTreeMap, BTreeSet, HashMap, HashSet};
 use std::io::{BufRead, BufReader, Read, Write};
@@ -1243,6 +1242,8 @@ impl Worker {
     let stderr = self.stderr.take().and_then(|h| h.join().ok()).unwrap_or_default();
     let timeout = self.slot.timed_out.swap(false, Ordering::SeqCst);
     let text = String::from_utf8_lossy(&stderr).to_string();
+    // thread ids in the runtime's message differ from run to run: digits are masked
+    let text: String = text.chars().map(|c| if c.is_ascii_digit() { '#' } else { c }).collect();
     let tail: String = text.chars().rev().take(600).collect::<Vec<_>>().into_iter().rev().collect();
     self.spawn();
     Outcome::Crash { phase, signal: status.and_then(|s| s.signal()), code: status.and_then(|s| s.code()), stderr: tail, timeout }
@@ -1425,7 +1426,6 @@ fn judge(case: &Case, out: &Outcome) -> Vec<Verdict> {
 #[derive(Default)]
 struct FamilyStats {
   generated: u64,
-  distinct: u64,
   accepted: u64,
   rejected: u64,
   matched: u64,
@@ -1522,34 +1522,13 @@ fn main() {
     std::process::exit(0);
   }
 
-  // pass 1: deterministic de-duplication by document text (first index of each text is kept)
-  let hashed: Vec<(u128, String)> = (0..n)
-    .into_par_iter()
-    .map(|i| {
-      let c = space.materialise(i);
-      let w = c.wire();
-      // two independent 64-bit FNV-style hashes
-      let (mut h1, mut h2) = (0xcbf29ce484222325u64, 0x9e3779b97f4a7c15u64);
-      for b in w.bytes() {
-        h1 = (h1 ^ b as u64).wrapping_mul(0x100000001b3);
-        h2 = (h2.rotate_left(5) ^ b as u64).wrapping_mul(0xff51afd7ed558ccd);
-      }
-      (((h1 as u128) << 64) | h2 as u128, c.family)
-    })
-    .collect();
-  let t_pass1 = rep.elapsed();
-  let mut generated: BTreeMap<String, u64> = BTreeMap::new();
-  for (_, f) in &hashed {
-    *generated.entry(f.clone()).or_insert(0) += 1;
-  }
-  let mut seen: HashSet<u128> = HashSet::with_capacity(n);
+  // every generated case is run (a text produced by two different substitutions runs twice and is
+  // reported twice, so that nothing depends on scheduling); distinct texts are counted by hash
   let only: Option<String> = args.extra.iter().position(|a| a == "--only").and_then(|k| args.extra.get(k + 1).cloned());
-  let todo: Vec<usize> = (0..n)
-    .filter(|&i| seen.insert(hashed[i].0))
-    .filter(|&i| only.as_ref().map(|o| hashed[i].1.starts_with(o.as_str())).unwrap_or(true))
-    .collect();
-  drop(seen);
-  drop(hashed);
+  let todo: Vec<usize> = (0..n).collect();
+  let seen_all: Mutex<HashSet<u128>> = Mutex::new(HashSet::with_capacity(n));
+  let seen_matched: Mutex<HashSet<u128>> = Mutex::new(HashSet::new());
+  let t_pass1 = rep.elapsed();
 
   // pass 2: hand the distinct cases to worker children
   let nworkers = std::thread::available_parallelism().map(|x| x.get()).unwrap_or(8).min(32);
@@ -1570,6 +1549,7 @@ fn main() {
       let slot = slot.clone();
       let (space, todo, next, fam, errs, samples, rep) = (&space, &todo, &next, &fam, &errs, &samples, &rep);
       let (total_matches, total_edits, restarts, sigs) = (&total_matches, &total_edits, &restarts, &sigs);
+      let (seen_all, seen_matched, only) = (&seen_all, &seen_matched, &only);
       let tier = args.tier.clone();
       sc.spawn(move || {
         let mut w = Worker::new(slot, &tier, epoch);
@@ -1580,7 +1560,21 @@ fn main() {
           }
           let i = todo[k];
           let case = space.materialise(i);
-          let out = w.run(i, &case.wire());
+          if only.as_ref().map(|o| !case.family.starts_with(o.as_str())).unwrap_or(false) {
+            continue;
+          }
+          let wire = case.wire();
+          let hash = {
+            // two independent 64-bit hashes of the text
+            let (mut h1, mut h2) = (0xcbf29ce484222325u64, 0x9e3779b97f4a7c15u64);
+            for b in wire.bytes() {
+              h1 = (h1 ^ b as u64).wrapping_mul(0x100000001b3);
+              h2 = (h2.rotate_left(5) ^ b as u64).wrapping_mul(0xff51afd7ed558ccd);
+            }
+            ((h1 as u128) << 64) | h2 as u128
+          };
+          seen_all.lock().unwrap().insert(hash);
+          let out = w.run(i, &wire);
           let verdicts = judge(&case, &out);
           let family = case.family.clone();
           let mut accepted = false;
@@ -1591,6 +1585,9 @@ fn main() {
                 accepted = true;
                 let m = r["matches"].as_u64().unwrap_or(0);
                 matched = m > 0;
+                if matched {
+                  seen_matched.lock().unwrap().insert(hash);
+                }
                 total_matches.fetch_add(m, Ordering::Relaxed);
                 total_edits.fetch_add(r["edits"].as_u64().unwrap_or(0), Ordering::Relaxed);
               }
@@ -1607,7 +1604,7 @@ fn main() {
           {
             let mut f = fam.lock().unwrap();
             let e = f.entry(family.clone()).or_default();
-            e.distinct += 1;
+            e.generated += 1;
             if accepted {
               e.accepted += 1;
             } else if matches!(&out, Outcome::Result(r) if r["load"] == "err") {
@@ -1650,21 +1647,20 @@ fn main() {
   stop.store(true, Ordering::SeqCst);
   let _ = wd.join();
 
-  eprintln!("timing: enumerate+hash {:.1}s, run {:.1}s", t_pass1, rep.elapsed() - t_pass1);
-  let mut fam = fam.into_inner().unwrap();
-  for (k, g) in &generated {
-    fam.entry(k.clone()).or_default().generated = *g;
-  }
+  eprintln!("timing: enumerate {:.1}s, run {:.1}s", t_pass1, rep.elapsed() - t_pass1);
+  let fam = fam.into_inner().unwrap();
   let errs = errs.into_inner().unwrap();
-  let (mut acc, mut rej, mut mat, mut crashed, mut distinct) = (0, 0, 0, 0, 0);
+  let (mut acc, mut rej, mut mat, mut crashed, mut ran) = (0u64, 0u64, 0u64, 0u64, 0u64);
+  let distinct = seen_all.into_inner().unwrap().len();
+  let distinct_matched = seen_matched.into_inner().unwrap().len();
   let mut fam_json = serde_json::Map::new();
   for (k, f) in &fam {
     acc += f.accepted;
     rej += f.rejected;
     mat += f.matched;
     crashed += f.crashed;
-    distinct += f.distinct;
-    fam_json.insert(k.clone(), json!({"generated": f.generated, "distinct": f.distinct, "accepted": f.accepted, "rejected": f.rejected, "accepted_with_match": f.matched, "cases_with_violation": f.crashed}));
+    ran += f.generated;
+    fam_json.insert(k.clone(), json!({"generated": f.generated, "accepted": f.accepted, "rejected": f.rejected, "accepted_with_match": f.matched, "cases_with_violation": f.crashed}));
   }
   let mut sample_list = vec![];
   for (f, m) in samples.into_inner().unwrap() {
@@ -1712,13 +1708,14 @@ fn main() {
       "worker_children": nworkers,
     });
   let cov = json!({
-    "evaluations": distinct,
-    "distinct_nontrivial": mat,
-    "rule": "a case = (global utility rule files, rule file) text; cases = skeleton S1 (rule file with every section) and S2 (global utility rule file): every single substitution of every slot (every node of the document tree) by every value of the nasty alphabet + per-slot valid alternates + (map slots) one added key per nasty string; every pair of substitutions at two non-nested slots inside the sections transform / fix / rewriters / each nthChild / each range (quick: values from the reduced alphabet + alternates; thorough: full alphabet, and additionally every other non-nested slot pair of the whole document with the reduced alphabet); every reference cycle of length 1..3 over the edge alphabet, see bounds; a list of raw texts. Identical texts are run once. Each accepted configuration is scanned (find_all, get_message, get_fixer + make_edit + generate_replacement) over the source set of its language. distinct_nontrivial = distinct cases the loader accepted AND that produced at least one match during the scan (so message / transform / fix code ran)",
+    "evaluations": ran,
+    "distinct_nontrivial": distinct_matched,
+    "rule": "a case = (global utility rule files, rule file) text; cases = skeleton S1 (rule file with every section) and S2 (global utility rule file): every single substitution of every slot (every node of the document tree) by every value of the nasty alphabet + per-slot valid alternates + (map slots) one added key per nasty string; every pair of substitutions at two non-nested slots inside the sections transform / fix / rewriters / each nthChild / each range (quick: values from the reduced alphabet + alternates; thorough: full alphabet, and additionally every other non-nested slot pair of the whole document with the reduced alphabet); every reference cycle of length 1..3 over the edge alphabet, see bounds; a list of raw texts. A text produced by two different substitutions is run (and counted per family) twice; `cases_distinct` and `distinct_nontrivial` count distinct texts. Each accepted configuration is scanned (find_all, get_message, get_fixer + make_edit + generate_replacement) over the source set of its language. distinct_nontrivial = distinct texts the loader accepted AND that produced at least one match during the scan (so message / transform / fix code ran)",
     "exhaustive": only.is_none(),
     "debug_family_filter": only,
     "cases_generated": n,
     "cases_distinct": distinct,
+    "cases_run": ran,
     "accepted": acc,
     "rejected": rej,
     "accepted_and_scanned": acc,
